@@ -133,14 +133,19 @@ def materialise(c, counts, layout, work):
     raise common.MachineryError(f'unknown layout {layout}')
 
 
-def estimate(paths):
+def estimate(paths, mode='all', window=None):
     from panqec.analysis import Analysis
-    out = {'raised': ''}
+    out = {'raised': '', 'mode': mode}
     try:
         with contextlib.redirect_stdout(io.StringIO()), warnings.catch_warnings():
             warnings.simplefilter('ignore')
             an = Analysis(paths, verbose=False)
-            an.calculate_thresholds()
+            if mode == 'override':
+                df = an.get_results()
+                key = tuple(df[['code', 'error_model_label', 'decoder_label']]
+                            .drop_duplicates().values[0])
+                an.overrides['total'][key] = {'error_rate': {'min': window[0], 'max': window[1]}}
+            an.calculate_thresholds(autotruncate=(mode == 'auto'))
             th = an.thresholds
         if len(th) != 1:
             out['raised'] = f'{len(th)} threshold rows for one (code, noise, decoder)'
@@ -172,6 +177,19 @@ def drive(args):
         try:
             paths = materialise(c, counts, lay, work)
             r = estimate(paths)
+        finally:
+            shutil.rmtree(work, ignore_errors=True)
+        r['layout'] = lay
+        runs.append(r)
+    # the truncation modes, on one layout each
+    offs = sorted(c['offs'])
+    window = (c['pth'] * (1000 + offs[1]) / 1e7, c['pth'] * (1000 + offs[-2]) / 1e7)
+    for mi, mode in enumerate(('auto', 'override')):
+        lay = layouts[(idx + mi) % len(layouts)]
+        work = os.path.join(workroot, f'c{idx}_m{mi}')
+        os.makedirs(work, exist_ok=True)
+        try:
+            r = estimate(materialise(c, counts, lay, work), mode, window)
         finally:
             shutil.rmtree(work, ignore_errors=True)
         r['layout'] = lay
@@ -282,13 +300,13 @@ def run(tier):
     def _corrupt(r):
         if r['kind'] != 'planted' or r['runs'][0]['raised']:
             return None
-        r['runs'][0]['th'] += 40 * max(r['runs'][0]['se'], r['case']['pth'])
+        r['runs'][0]['th'] += 40 * max(r['runs'][0]['right'] - r['runs'][0]['left'], r['case']['pth'])
         return r
     common.binding_selftest('c16', 'C16_Data', [r for r in allrecs if r['id'] not in rejects], _corrupt)
     rc = v.finish()
     nruns = sum(len(r['runs']) for r in recs)
-    errs = [abs(x['th'] - r['case']['pth'] * 100) / max(1, x['se']) for r in recs for x in r['runs']
-            if not x['raised'] and x['se'] > 0]
+    errs = [abs(x['th'] - r['case']['pth'] * 100) / max(1, (x['right'] - x['left']) / 2) for r in recs
+            for x in r['runs'] if not x['raised'] and x['right'] > x['left']]
     common.write_evidence(
         'C16', tier, 'exploration',
         {
@@ -299,8 +317,8 @@ def run(tier):
             'threshold_estimations_on_the_real_code': nruns,
             'layouts': sorted({x['layout']['kind'] for r in recs for x in r['runs']}),
             'get_fit_status_entries': len(srecs),
-            'worst_deviation_in_reported_standard_errors': round(max(errs), 3) if errs else None,
-            'median_deviation_in_reported_standard_errors': round(float(np.median(errs)), 3) if errs else None,
+            'worst_deviation_in_half_widths_of_the_reported_interval': round(max(errs), 3) if errs else None,
+            'median_deviation_in_half_widths_of_the_reported_interval': round(float(np.median(errs)), 3) if errs else None,
             'samples': [{'case': r['case'], 'first_run': {k: x for k, x in r['runs'][0].items()}}
                         for r in recs[::max(1, len(recs) // 4)]],
             'evaluations': nruns + len(srecs),
@@ -313,10 +331,10 @@ def run(tier):
         },
         time.time() - t0, len(v.violations),
         assumptions=['the optimiser is observed, not modelled: only the reported numbers are '
-                     'judged', 'tolerance: 5 reported standard errors or 1% of p_th',
+                     'judged', 'tolerance: 5 half-widths of the reported 68% interval or 1% of p_th',
                      'well-conditioned box = Threshold!Box (documented in DESIGN.md)'])
     print(f'C16 {tier}: {len(recs)} planted cases, {nruns} estimations, {len(srecs)} status entries, '
-          f'{len(rejects)} rejected, worst deviation {max(errs) if errs else 0:.2f} se, {time.time()-t0:.1f}s')
+          f'{len(rejects)} rejected, worst deviation {max(errs) if errs else 0:.2f} half-widths, {time.time()-t0:.1f}s')
     return rc
 
 
